@@ -3,7 +3,7 @@
    machine under simplelexer.ReadToken; an input is a list of (code point,
    byte width) as the driver's rune reader delivers them. *)
 From Coq Require Import List ZArith Bool.
-From Lox Require Import Lex.LexRuntime Lex.LexAuto Lex.LexTotalProofs.
+From Lox Require Import Lex.LexRuntime Lex.LexAuto Lex.LexTotalProofs Lex.Utf8Model Lex.Utf8Lex.
 Import ListNotations.
 Open Scope Z_scope.
 
@@ -39,3 +39,18 @@ Theorem C11_lex_no_loss :
     forall b e, In (SegEOF b e) segs -> b = e.
 Proof. exact lex_no_loss_any. Qed.
 Print Assumptions C11_lex_no_loss.
+
+(* ---- over raw bytes (valid, invalid or truncated UTF-8): [lex_bytes] decodes
+   with the mirror of utf8.DecodeRune and runs the tables ---- *)
+Theorem C11_lex_bytes_total : forall modes bs, modes_wf modes = true ->
+  exists segs, lex_bytes modes (3 * length (decode_all bs) + 1) bs = LDone segs.
+Proof. exact lex_bytes_total. Qed.
+Print Assumptions C11_lex_bytes_total.
+
+(* every BYTE lies in exactly one token, discarded stretch or error stretch *)
+Theorem C11_lex_bytes_tiling : forall modes fuel bs segs,
+  lex_bytes modes fuel bs = LDone segs ->
+  let n := Z.of_nat (length bs) in
+  exists pre, segs = pre ++ [SegEOF n n] /\ Forall noneof pre /\ tiles 0 pre n.
+Proof. exact lex_bytes_tiling. Qed.
+Print Assumptions C11_lex_bytes_tiling.
